@@ -11,7 +11,7 @@ CONSTANTS
   AllowStop = TRUE
   AllowLoss = FALSE
   Extra = {}
-  CloseKinds = {"localA", "localB", "endpointA"}
+  CloseKinds = {"localA", "localB"}
   Deviations = {}
 SPECIFICATION Spec
 INVARIANTS TypeOK InOrderExactlyOnce FinAfterLastByte FlowControl NoStrandedFutureStrict NoLostWakeup ClosedTablesEmpty ClosedNobodyPending AbsInv
